@@ -9,5 +9,5 @@ PROP = {'modules': ['AmVerif.Props.C14'],
 
 META = {'text': 'Theorems over the frame-stack model of records.rs for every loader program: a read touches the top frame only and only if it records; no_record, a nested load of a reloadable asset (on success and on panic) and a helper thread leave the enclosing frames EXACTLY as they were (so nothing they read is attributed to the outer asset) and recording resumes afterwards whatever the outcome (return, error, panic, fuel exhaustion: eval_shape by induction over all Prog constructors); the dependency set registered for a nested asset is exactly its own frame; a failed nested load hands its reads to the enclosing record; a type that is not reloaded runs under the enclosing frame; Record::insert_* are guarded by the reloader identity (extracted).',
  'design_ref': 'DESIGN.md §6 C14',
- 'note': 'Trusted: Lean kernel; amx conditions (recordsAsset, recordsRead, failedLoadRecordsToParent, recordChecksReloaderIdentity); eval as transcription. Reads through a second cache are not executed by the harness (guard extracted only). Tie: hr engine attribution probes with an oracle computed from token kinds + model diff.',
+ 'note': 'Trusted: Lean kernel; amx conditions (recordsAsset, recordsRead, failedLoadRecordsToParent, recordChecksReloaderIdentity); eval as transcription. Reads through a second cache are exercised by the `hr.cross` probe (a compound over two hot caches; oracle from the statement) and the identity guard is extracted. Tie: hr engine attribution probes with an oracle computed from token kinds + model diff.',
  'technique': 'Lean 4 proof (frame-stack invariants by induction over loader programs) + differential correspondence'}
